@@ -41,7 +41,8 @@ def build_case(cid, b, rng, channel=None):
     args = {"mode": "build", "channel": channel or rng.choice(BUILD_CHANNELS),
             "twp": concrete_tr(b["twp"], "ns", rng), "rge": concrete_tr(b["rge"], "ew", rng),
             "sec": concrete_sec(b["sec"], rng),
-            "dns": "s" if b["dns"] == "alt" else None, "dew": "e" if b["dew"] == "alt" else None}
+            "dns": "s" if b["dns"] == "alt" else None, "dew": "e" if b["dew"] == "alt" else None,
+            "ocr": bool(b.get("ocr"))}
     return {"id": cid, "kind": "c12", "abs": {"kind": "build", "build": b}, "args": args}
 
 
@@ -50,7 +51,7 @@ def str_case(cid, chars, rng, channel=None):
             "args": {"mode": "str", "channel": channel or rng.choice(STR_CHANNELS), "s": "".join(chars)}}
 
 
-DUMMY_BUILD = {"twp": {"e": "none"}, "rge": {"e": "none"}, "sec": {"e": "none"}, "dns": "unset", "dew": "unset"}
+DUMMY_BUILD = {"twp": {"e": "none"}, "rge": {"e": "none"}, "sec": {"e": "none"}, "dns": "unset", "dew": "unset", "ocr": False}
 
 
 def to_record(c, o):
@@ -95,8 +96,8 @@ ALPHABET = ["0", "5", "n", "N", "w", "e", "X", "z", "_", " ", "\n", "a", "-"]
 
 def run(ctx):
     thorough = ctx.tier == "thorough"
-    twpn = {0, 7, 154, 999, 1000} if thorough else {7, 154, 1000}
-    secn = {0, 7, 14, 99, 100} if thorough else {7, 14, 100}
+    twpn = {0, 7, 154, 999, 1000} if thorough else {0, 154, 1000}
+    secn = {0, 7, 14, 99, 100} if thorough else {0, 14, 100}
     alpha = set(ALPHABET) if thorough else {"0", "n", "N", "X", "_", " ", "\n", "a"}
     base = {"TwpNums": twpn, "SecNums": secn, "EditAlphabet": alpha}
     invs = ["BuiltIsCanonical", "WrapIdempotent", "EditedNeverValidLooking", "KeepsOtherComponents"]
@@ -112,7 +113,7 @@ def run(ctx):
     for i, c in enumerate(res.cases):
         if c["kind"] == "build":
             n_build += 1
-            if not thorough and ctx.rng.random() > 0.35:
+            if not thorough and ctx.rng.random() > 0.25:
                 continue
             cases.append(build_case("b%d" % i, c["build"], ctx.rng))
         else:
@@ -137,7 +138,8 @@ def run(ctx):
         r = ctx.rng.random()
         if r < 0.45:
             b = {"twp": rand_tr(ctx.rng), "rge": rand_tr(ctx.rng), "sec": rand_sec(ctx.rng),
-                 "dns": ctx.rng.choice(["unset", "alt"]), "dew": ctx.rng.choice(["unset", "alt"])}
+                 "dns": ctx.rng.choice(["unset", "alt"]), "dew": ctx.rng.choice(["unset", "alt"]),
+                 "ocr": ctx.rng.random() < 0.4}
             rnd.append(build_case("rb%d" % i, b, ctx.rng))
         else:
             s = list("%d%s%d%s%02d" % (ctx.rng.randint(0, 999), ctx.rng.choice("nsNS"), ctx.rng.randint(0, 999),
